@@ -268,10 +268,10 @@ PROPS["C08"] = dict(
     "duplicated) to the real EngineManager/EngineManagerRunner over a harness EngineInterface whose persistence is immediate / stalled for whole phases (far beyond the 100-block "
     "cache) / failing / jumping ahead through a side channel / pruned, over 2-4 manager incarnations per case, on current-thread and multi-thread runtimes. Checked: every block "
     "handed to storage follows the previous hand-off or the durable head, is one of the verified blocks, one payload per number; persisted within queued, neither range shrinks; any "
-    "number inside the queued range reads back (same payload forever) unless pruned meanwhile; an invalid block is never acknowledged; the whole chain is durable at quiescence. Every third case uses rotating committees: the genesis has no static schedule, the chain is certified by 2-4 successive committees of equal size (own keys and weights, view numbers restarting per epoch), and the harness execution layer reports the schedule in force and announces the next one as pending some blocks before it takes over; besides the usual invalid variants, blocks certified by the committee of another epoch and genuine certificates re-labelled with another known epoch must be refused, across manager restarts in any epoch. (node-gossip) A real node (testonly::Instance: production Network runner, block fetcher, fetch queue, gossip run_stream, validator-network dialler over a real EngineManager with an empty store) is surrounded by 2-4 raw gossip peers that announce ranges of a certified chain, answer get_block honestly or with lies (wrong number, altered payload, broken certificate, nothing, no answer), reconnect after being dropped and push genuine / forged / non-member address announcements pointing at harness listeners; here: every block the node stores is read back and compared with the certified chain.",
+    "number inside the queued range reads back (same payload forever) unless pruned meanwhile; an invalid block is never acknowledged; the whole chain is durable at quiescence. Every third case uses rotating committees: the genesis has no static schedule, the chain is certified by 2-4 successive committees of equal size (own keys and weights, view numbers restarting per epoch), and the harness execution layer reports the schedule in force and announces the next one as pending some blocks before it takes over; besides the usual invalid variants, blocks certified by the committee of another epoch and genuine certificates re-labelled with another known epoch must be refused, across manager restarts in any epoch. (node-gossip) A real node (testonly::Instance: production Network runner, block fetcher, fetch queue, gossip run_stream, validator-network dialler over a real EngineManager with an empty store) is surrounded by 2-4 raw gossip peers that announce ranges of a certified chain, answer get_block honestly or with lies (wrong number, altered payload, broken certificate, nothing, no answer), reconnect after being dropped and push genuine / forged / non-member address announcements pointing at harness listeners; here: every block the node stores is read back and compared with the certified chain; the peers also ask the NODE for blocks (mostly inside the range the node itself announced to them on that connection): a served block must be the certified one, an announced block must be served, and every store state the node announces must end in the certified block of that number.",
     assumptions=["the harness EngineInterface (storage) is the trusted base", "held on the generated interleavings only"],
     stages=[dict(name="engine-stress", flavour="release", crate="eng"), dict(name="node-gossip", flavour="release", args={"mode": "node-gossip"}, crate="net")],
-    floors={"quick": {"queue_next_block_calls": 5000, "read_backs": 20000, "max_queued_minus_persisted": 101, "side_channel_jumps": 10, "prunes": 10, "storage_failures_injected": 10, "manager_incarnations": 100, "accepted_fork": 50, "cases_with_rotating_committees": 20, "refused_certified-by-the-committee-of-another-epoch": 500, "refused_certificate-relabelled-with-another-epoch": 500, "node_synced_whole_chain": 60, "lying_answers_given": 100},
+    floors={"quick": {"queue_next_block_calls": 5000, "read_backs": 20000, "max_queued_minus_persisted": 101, "side_channel_jumps": 10, "prunes": 10, "storage_failures_injected": 10, "manager_incarnations": 100, "accepted_fork": 50, "cases_with_rotating_committees": 20, "refused_certified-by-the-committee-of-another-epoch": 500, "refused_certificate-relabelled-with-another-epoch": 500, "node_synced_whole_chain": 60, "lying_answers_given": 100, "blocks_served_by_the_node": 300, "store_states_announced_by_the_node": 1000},
             "thorough": {"queue_next_block_calls": 100000, "max_queued_minus_persisted": 101}},
 )
 
